@@ -110,7 +110,10 @@ def edit_family(run, search_prop, n_quick=900, n_thorough=6000, corr=True, pre=N
     run.assumptions += EDIT_ASSUME
 
 def C08(run): edit_family(run, 'C08')
-def C04(run): edit_family(run, 'C04', pre=gen_layers)
+def C04(run):
+    edit_family(run, 'C04', pre=gen_layers)
+    # edits whose path holds a reference: only the defining binding may change (the same search as C05/C11, judged as "touches only …")
+    oracle(run, 'reference-edit-search', 'resolve_search.py', ['C04', run.seed, 3000 if run.tier == 'thorough' else 500], timeout=3000)
 def C05(run):
     edit_family(run, 'C05')
     # edits whose path holds a reference (let layers, shadowing, alias chains): the binding that is rewritten must be the defining one, nothing else changes
